@@ -65,6 +65,9 @@ type jcase struct {
 	WN     int           `json:"wn,omitempty"`
 	WD     [3]int        `json:"wd,omitempty"` // window size per axis (default WN cubed)
 	BS     [3]int        `json:"bs,omitempty"` // labelmap BlockSize (default 16,16,16)
+	// read the levels back after EVERY write even though all writes are raw POSTs (emitted as CHist):
+	// raw-only histories on cubic blocks are also evaluated by the block-level model in Coq
+	Steps bool `json:"steps,omitempty"`
 }
 
 func hx(b []byte) string { return `(hx "` + hex.EncodeToString(b) + `"%string)` }
@@ -301,7 +304,7 @@ func runHTTP(c jcase) (res httpResult) {
 		return 1
 	}
 	readLevels := func(node string) []string { return readLevelsOf(c, node, name, wd) }
-	hist := false
+	hist := c.Steps
 	for _, w := range c.Writes {
 		if w.Via != "" {
 			hist = true
@@ -539,7 +542,7 @@ func main() {
 			ws[i] = fmt.Sprintf("(%s%%Z,%s%%Z,%s%%Z,(%d,%d,%d),%s)", lib.CoqZ(int64(w.Off[0])), lib.CoqZ(int64(w.Off[1])), lib.CoqZ(int64(w.Off[2])),
 				w.Size[0], w.Size[1], w.Size[2], blk.CoqPaints(w.Paints))
 		}
-		hist := false
+		hist := c.Steps
 		for _, w := range c.Writes {
 			if w.Via != "" {
 				hist = true
@@ -960,6 +963,50 @@ func main() {
 				jwrite{Off: off, Size: [3]int{16, 16, 16}, Paints: []blk.Paint{blk.Fill(a), blk.Box(box(p2), b)}, Child: rng.Chance(0.4)})
 		}
 		addHTTP(jcase{Kind: "http", Max: 1 + rng.Intn(3), Win: win, WN: wn, Writes: ws})
+	}
+
+	// ---- raw-write histories for the block-level model (Model/DownresPyr.v bexec, Round 4) ----
+	// BlockSize 16, max level 2, levels read after every write.  The written 2x2x2 group of blocks has
+	// its low corner at an arbitrary block coordinate in -3..2 per axis (odd and negative included), so
+	// the changed blocks fill SOME octants of several parents (stored parent as receiver), parents
+	// straddle the origin, and the parents themselves fill some octants of two or more grandparents.
+	nPyr := 1
+	if o.Thorough() {
+		nPyr = 10
+	}
+	for i := 0; i < nPyr; i++ {
+		wb := [3]int{rng.Intn(6) - 3, rng.Intn(6) - 3, rng.Intn(6) - 3}
+		if i == 0 {
+			wb = [3]int{-3, -1, []int{0, 1, -2, -1}[int(o.Seed)%4]} // corpus: odd negative, -1 | 0 boundary
+		}
+		win := [3]int{16 * wb[0], 16 * wb[1], 16 * wb[2]}
+		// quick tier: a row of two blocks (two parents, one octant each; one grandparent, two octants);
+		// thorough: the 2x2x2 group
+		grp := [3]int{32, 16, 16}
+		if o.Thorough() {
+			grp = [3]int{32, 32, 32}
+		}
+		ws := []jwrite{{Off: win, Size: grp, Paints: []blk.Paint{blk.Hash([6]int{0, 0, 0, grp[0], grp[1], grp[2]}, uint64(rng.Pick(1, 2, 4)), uint64(rng.Intn(1<<16)), []uint64{1, 2, 3, 0})}}}
+		for j := 0; j < 2; j++ {
+			// one block, a row of two, a 2x2 slab or a column, anywhere in the group
+			sz := [][3]int{{16, 16, 16}, {32, 16, 16}, {16, 32, 32}, {16, 16, 32}}[rng.Intn(4)]
+			for k := range sz {
+				if sz[k] > grp[k] {
+					sz[k] = grp[k]
+				}
+			}
+			if j == 0 {
+				sz = [3]int{16, 16, 16}
+			}
+			off := [3]int{win[0] + 16*rng.Intn((grp[0]-sz[0])/16+1), win[1] + 16*rng.Intn((grp[1]-sz[1])/16+1), win[2] + 16*rng.Intn((grp[2]-sz[2])/16+1)}
+			ps := []blk.Paint{blk.Fill(uint64(rng.Pick(0, 5)))}
+			if rng.Bool() {
+				ps = []blk.Paint{blk.Hash([6]int{0, 0, 0, sz[0], sz[1], sz[2]}, uint64(rng.Pick(1, 2)), uint64(rng.Intn(1<<16)), []uint64{0, 4, 1})}
+			}
+			ws = append(ws, jwrite{Off: off, Size: sz, Paints: ps})
+		}
+		addHTTP(jcase{Kind: "http", Max: 2, Win: win, WD: grp, Steps: true, Writes: ws})
+		run.Count("http:block-level-model")
 	}
 
 	flushHTTP()
